@@ -303,6 +303,10 @@ pub fn on_seeded_thread<T: Send>(hseed: u64, f: impl FnOnce() -> T + Send) -> st
     })
 }
 
+/// Pure checks (no HashMap-order dependence inside the code under test) switch the
+/// thread-per-case isolation off: it costs more than the check itself.
+pub static CASE_THREADS: AtomicBool = AtomicBool::new(true);
+
 pub fn hseed_of(ctx_seed: u64) -> u64 {
     splitmix(ctx_seed ^ 0x68617368)
 }
@@ -361,7 +365,7 @@ pub fn run_case<C: Sync>(
     case: &C,
     obs: &mut Obs,
 ) -> Result<(), Fail> {
-    let r = on_seeded_thread(hseed, || {
+    let body = || {
         let _ = take_last_panic();
         let mut o = Obs::default();
         let r = match catch_unwind(AssertUnwindSafe(|| check(case, &mut o))) {
@@ -372,7 +376,8 @@ pub fn run_case<C: Sync>(
             }
         };
         (r, o)
-    });
+    };
+    let r = if CASE_THREADS.load(Ordering::Relaxed) { on_seeded_thread(hseed, body) } else { Ok(body()) };
     match r {
         Ok((r, o)) => {
             *obs = o;
